@@ -34,6 +34,10 @@ type splitOp struct {
 	Features    []featDef `json:"features,omitempty"`
 	Fonts       []fontRef `json:"fonts"`
 	ScriptAware bool      `json:"script_aware,omitempty"` // the fontmap implements FontmapScript
+	// Burst > 0: Burst-1 uncompared Split calls first, alternating between AltText (whole text as
+	// the run) and this input, then this (compared) call
+	Burst   int    `json:"burst,omitempty"`
+	AltText []rune `json:"alt_text,omitempty"`
 }
 
 type splitCase struct {
@@ -119,9 +123,35 @@ func (m *splitMachine) apply(op splitOp) {
 	in, fm := op.build(m.t)
 	inF, _ := op.build(m.t)
 	var got, want []shaping.Input
+	if op.Burst > 1 {
+		alt := op
+		alt.Text, alt.RunStart, alt.RunEnd = op.AltText, 0, len(op.AltText)
+		inA, _ := alt.build(m.t)
+		inB, _ := op.build(m.t)
+		if p := try(func() {
+			for i := 1; i < op.Burst; i++ {
+				if (op.Burst-i)%2 == 0 {
+					m.used.Split(inB, fm())
+				} else {
+					m.used.Split(inA, fm())
+				}
+			}
+		}); p != nil {
+			// a panic on one of the two tiny inputs: is it the input's fault?
+			if pf := try(func() { (&shaping.Segmenter{}).Split(inA, fm()); (&shaping.Segmenter{}).Split(inB, fm()) }); pf == nil {
+				m.fail("the burst panicked on the used segmenter, a fresh one handles both inputs: %v", p)
+			}
+			m.flags["both_panic_restart"] = true
+			m.used = &shaping.Segmenter{}
+		}
+		m.flags[burstLabel(op.Burst)] = true
+	}
 	pu := try(func() { got = m.used.Split(in, fm()) })
 	pr := try(func() { want = (&shaping.Segmenter{}).Split(inF, fm()) })
 
+	if op.Burst > 1 {
+		m.prevRuns = 2 // the burst alternated between two inputs
+	}
 	key := histKey("", op)
 	if m.prevKey != "" && m.prevKey != key && m.prevRuns >= 2 {
 		m.flags["different_input_after_multi_run_result"] = true
@@ -234,6 +264,12 @@ func TestPropSplit(t *testing.T) {
 		m := newSplitMachine(rt)
 		rt.Repeat(map[string]func(*rapid.T){
 			"split": func(rt *rapid.T) { m.apply(drawSplitOp(rt)) },
+			"burst": func(rt *rapid.T) {
+				op := drawSplitOp(rt)
+				op.AltText = drawMixedText(rt, 6)
+				op.Burst = drawBurstN(rt, len(op.Text) <= 8)
+				m.apply(op)
+			},
 			"split_again": func(rt *rapid.T) {
 				// the same input as the previous step once more, or a prefix of it: a shorter result
 				// after a longer one is what exposes stale slice contents
